@@ -142,7 +142,7 @@ pub fn run(args: &[String]) -> ! {
     }
     let mut summary = Vec::new();
     let mut capped_any = false;
-    let budget = if ctx.quick() { 45.0 / ws.len() as f64 } else { 1500.0 / ws.len() as f64 };
+    let budget = if ctx.quick() { 30.0 / ws.len() as f64 } else { 1500.0 / ws.len() as f64 };
     for (name, cfg, depth) in &ws {
         let depth = ctx.opt_u64("depth").map(|d| d as u8).unwrap_or(*depth);
         let mut w = Refs::new(cfg.clone());
